@@ -58,6 +58,7 @@ type Storage struct {
 	ErrEcho  bool // error texts repeat the key that was asked for (applications do that; the IdP echoes error texts in status messages)
 	mu       sync.Mutex
 	SPs      map[string]*serviceprovider.ServiceProvider
+	SPDocs   map[*serviceprovider.ServiceProvider][]byte // the metadata document each provider was registered with
 	Requests map[string]*AuthReq
 	Apps     map[string]string
 	Users    map[string]*User // by user id
@@ -273,6 +274,7 @@ func (s *Storage) ClearSPs() {
 	defer s.mu.Unlock()
 	s.SPs = map[string]*serviceprovider.ServiceProvider{}
 	s.Apps = map[string]string{}
+	s.SPDocs = map[*serviceprovider.ServiceProvider][]byte{}
 }
 
 // Log returns a copy of the call log
